@@ -42,12 +42,16 @@ var stepRe = regexp.MustCompile(`^(\d+) (.*?): `)
 type traceStep struct {
 	k     int
 	names []string
+	at    int64 // virtual time of the step in the counterexample (-1: not recorded)
 }
+
+var atRe = regexp.MustCompile(` @t=(\d+)$`)
 
 type envMove struct {
 	t        int
 	glob     int  // index among all environment moves of the trace
 	chained  bool // same instant as the previous environment move (of another goroutine)
+	at       int64
 }
 
 var (
@@ -85,7 +89,11 @@ func loadTrace() {
 		if strings.Contains(line, "start [go]") || strings.Contains(line, "tau@") {
 			continue
 		}
-		traceSteps = append(traceSteps, traceStep{k, strings.Split(m[2], " -> ")})
+		at := int64(-1)
+		if am := atRe.FindStringSubmatch(line); am != nil {
+			fmt.Sscanf(am[1], "%d", &at)
+		}
+		traceSteps = append(traceSteps, traceStep{k, strings.Split(m[2], " -> "), at})
 	}
 }
 
@@ -125,7 +133,7 @@ func paceSchedule() {
 			for _, n := range st.names {
 				if env[n] {
 					paceTimes[n] = append(paceTimes[n], t)
-					paceMoves[n] = append(paceMoves[n], envMove{t: t, glob: glob, chained: prevT == t && prevName != n && prevName != ""})
+					paceMoves[n] = append(paceMoves[n], envMove{t: t, glob: glob, chained: prevT == t && prevName != n && prevName != "", at: st.at})
 					glob++
 					prevT, prevName = t, n
 				}
@@ -177,6 +185,10 @@ func Pace(name string) {
 		k = ts[len(ts)-1] + 1 + (i - len(ts))
 	}
 	due := start.Add(time.Duration(k+1) * time.Millisecond)
+	if mv != nil && mv.at >= 0 {
+		// the counterexample carries virtual time: follow it (plus a step-order epsilon)
+		due = start.Add(time.Duration(mv.at) + time.Duration(k+1)*time.Microsecond)
+	}
 	if d := time.Until(due); d > 0 {
 		time.Sleep(d)
 	}
